@@ -385,11 +385,161 @@ func judged(c Case) *ev.Verdict {
 
 func registerAll() {
 	ev.Register("projects", judged)
+	ev.Register("positions", judgedPositions)
 }
 
 func TestPropProjects(t *testing.T) {
 	registerAll()
 	ev.Rapid(t, "projects", ev.N(8000, 25000), genCase, judged)
+}
+
+// ---- every reference position at every depth: chains root -> @t1 -> ... -> @td, d <= 3
+
+// shape builds a type that refers to target from one reference position; kind is what a referrer
+// can rely on, need is what the position demands of its target
+type shape struct {
+	name, kind, need string
+	build            func(target string, depth int) *model.Node
+}
+
+func scalarI(rules ...model.Rule) *model.Node { return model.Scalar("integer", "7", rules...) }
+func scalarS(rules ...model.Rule) *model.Node { return model.Scalar("string", `"kk"`, rules...) }
+
+var shapes = []shape{
+	{"value-shortcut", "obj", "any", func(n string, d int) *model.Node { return model.Obj().Add(fmt.Sprintf("p%d", d), model.Ref(n)) }},
+	{"choice", "obj", "any", func(n string, d int) *model.Node {
+		return model.Obj().Add(fmt.Sprintf("p%d", d), model.Choice(n, "@z"))
+	}},
+	{"key-shortcut", "obj", "str", func(n string, d int) *model.Node { return model.Obj().AddShortcut(n, model.Scalar("integer", "1")) }},
+	{"property-type", "obj", "int", func(n string, d int) *model.Node {
+		return model.Obj().Add(fmt.Sprintf("p%d", d), scalarI(model.R("type", model.Str(n))))
+	}},
+	{"property-or-item", "obj", "int", func(n string, d int) *model.Node {
+		return model.Obj().Add(fmt.Sprintf("p%d", d), scalarI(model.R("or", model.List(model.Str(n), model.Str("boolean")))))
+	}},
+	{"property-or-rule-set", "obj", "int", func(n string, d int) *model.Node {
+		return model.Obj().Add(fmt.Sprintf("p%d", d), scalarI(model.R("or", model.List(model.Set(model.R("type", model.Str("boolean"))), model.Set(model.R("type", model.Str(n)), model.R("nullable", model.Bool(true)))))))
+	}},
+	{"array-item", "obj", "any", func(n string, d int) *model.Node {
+		return model.Obj().Add(fmt.Sprintf("p%d", d), model.Arr().Item(model.Ref(n)))
+	}},
+	{"additionalProperties", "obj", "any", func(n string, d int) *model.Node {
+		return model.Obj(model.R("additionalProperties", model.Str(n))).Add(fmt.Sprintf("p%d", d), model.Scalar("integer", "1"))
+	}},
+	{"allOf", "obj", "obj", func(n string, d int) *model.Node {
+		return model.Obj(model.R("allOf", model.Str(n))).Add(fmt.Sprintf("own%d", d), model.Scalar("integer", "1"))
+	}},
+	{"nested", "obj", "any", func(n string, d int) *model.Node {
+		return model.Obj().Add(fmt.Sprintf("p%d", d), model.Obj().Add("q", model.Arr().Item(model.Obj().Add("r", model.Ref(n)))))
+	}},
+	{"nested-allOf", "obj", "obj", func(n string, d int) *model.Node {
+		return model.Obj().Add(fmt.Sprintf("p%d", d), model.Obj(model.R("allOf", model.Str(n))).Add(fmt.Sprintf("nown%d", d), model.Scalar("integer", "1")))
+	}},
+	{"scalar-type", "int", "int", func(n string, d int) *model.Node { return scalarI(model.R("type", model.Str(n))) }},
+	{"scalar-or-item", "int", "int", func(n string, d int) *model.Node {
+		return scalarI(model.R("or", model.List(model.Str(n), model.Str("boolean"))))
+	}},
+	{"scalar-or-rule-set", "int", "int", func(n string, d int) *model.Node {
+		return scalarI(model.R("or", model.List(model.Set(model.R("type", model.Str(n))), model.Set(model.R("type", model.Str("boolean"))))))
+	}},
+	{"string-type", "str", "str", func(n string, d int) *model.Node { return scalarS(model.R("type", model.Str(n))) }},
+	{"string-or-item", "str", "str", func(n string, d int) *model.Node {
+		return scalarS(model.R("or", model.List(model.Str("boolean"), model.Str(n))))
+	}},
+	{"array", "arr", "any", func(n string, d int) *model.Node { return model.Arr().Item(model.Ref(n)) }},
+	{"alias", "alias", "any", func(n string, d int) *model.Node { return model.Ref(n) }},
+	{"alias-choice", "alias", "any", func(n string, d int) *model.Node { return model.Choice("@z", n) }},
+}
+
+func leafOf(need string) *model.Node {
+	switch need {
+	case "obj":
+		return model.Obj().Add("leaf", model.Scalar("integer", "1"))
+	case "str":
+		return model.Scalar("string", `"kk"`)
+	}
+	return model.Scalar("integer", "7")
+}
+
+func fits(kind, need string) bool { return need == "any" || kind == need }
+
+func judgedPositions(c Case) *ev.Verdict { return oracle(c) }
+
+func TestPropPositions(t *testing.T) {
+	registerAll()
+	ev.KeepFirst("positions")
+	maxDepth := ev.N(2, 3)
+	idx := 0
+	var n, nt, bad int64
+	var chain []int
+	var rec func(need string)
+	emit := func() {
+		// chain[0] is the root's shape, chain[i] the shape of @t<i>; the last type is a leaf
+		d := len(chain)
+		names := make([]string, d+1)
+		names[0] = "@main"
+		for i := 1; i <= d; i++ {
+			names[i] = fmt.Sprintf("@t%d", i)
+		}
+		for withheld := 0; withheld <= d; withheld++ { // 0 = everything registered
+			idx++
+			if !ev.Mine(idx) {
+				continue
+			}
+			p := &model.Project{Types: []model.Type{{Name: "@z", Node: model.Scalar("integer", "7")}}}
+			p.Root = shapes[chain[0]].build(names[1], 0)
+			for i := 1; i < d; i++ {
+				p.Types = append(p.Types, model.Type{Name: names[i], Node: shapes[chain[i]].build(names[i+1], i)})
+			}
+			p.Types = append(p.Types, model.Type{Name: names[d], Node: leafOf(shapes[chain[d-1]].need)})
+			if withheld > 0 {
+				p.Withheld = []string{names[withheld]}
+			}
+			c := Case{P: p}
+			n++
+			if withheld > 0 {
+				nt++
+				var pos []string
+				for _, k := range chain {
+					pos = append(pos, shapes[k].name)
+				}
+				ev.Class("positions", fmt.Sprintf("withheld at depth %d", withheld))
+				if nt%400 == 1 {
+					ev.Sample("positions", p.Text(nil))
+				}
+			}
+			if v := oracle(c); v != nil && ev.Report("positions", c, v) {
+				bad++
+			}
+		}
+	}
+	rec = func(need string) {
+		for k, sh := range shapes {
+			if !fits(sh.kind, need) && !(len(chain) == 0) {
+				continue
+			}
+			if len(chain) > 0 && sh.kind == "alias" && need != "any" {
+				continue
+			}
+			chain = append(chain, k)
+			emit()
+			if len(chain) < maxDepth {
+				rec(sh.need)
+			}
+			chain = chain[:len(chain)-1]
+		}
+	}
+	rec("any")
+	ev.Count("positions", n)
+	ev.NonTrivialEnum("positions", nt)
+	var names []string
+	for _, sh := range shapes {
+		names = append(names, sh.name)
+	}
+	ev.Exhaustive("positions", fmt.Sprintf("every chain root -> @t1 -> ... -> @td (d <= %d) in which each schema refers to the next from one of the %d reference positions %v (kinds permitting), with everything registered and with each single type of the chain withheld", maxDepth, len(shapes), names))
+	if bad > 0 {
+		t.Errorf("VIOLATION-CANDIDATE positions: %d", bad)
+	}
 }
 
 func TestPropRegressions(t *testing.T) {
